@@ -17,7 +17,11 @@ Inserting == {"wrap_offset", "wrap_pattern", "mark_occurrence", "mark_position"}
 
 Verdict(ev) ==
     LET want == Flat(ApplyOp(ev.pre, ev.op))
-    IN  (IF Flat(ev.post) # want THEN {"differs-from-model"} ELSE {})
+        (* a paragraph without any text node: whether position 0 exists depends on an unobservable detail *)
+        (* (text "" or no text at all), so both "not found" and "inserted at the very start" are accepted *)
+        alt == IF ev.op.op = "mark_position" /\ ev.op.pos = 0 /\ MarkSlotPosition(ev.pre, 0) = 0
+               THEN Flat(<<E("bm", 0)>> \o ev.pre) ELSE want
+    IN  (IF Flat(ev.post) \notin {want, alt} THEN {"differs-from-model"} ELSE {})
    \cup (IF ev.op.op \in Inserting /\ Vis(ev.post) # Vis(ev.pre) THEN {"text-altered"} ELSE {})
    \cup (IF ev.op.op = "strip_tags" /\ Vis(ev.post) # Vis(ev.pre) THEN {"removal-lost-text"} ELSE {})
    \cup (IF Has(ev, "exc") /\ Flat(ev.post) # Flat(ev.pre) THEN {"partial-modification"} ELSE {})
